@@ -130,7 +130,10 @@ def _pick_cases(ctx, trees, lives):
     out = []
     for n, (t, lf) in enumerate(cases):
         out.append({'cid': n, 'root': t[0], 'size': t[1], 'tree_s': t[2], 'life': lf,
-                    'seed': rnd.randrange(1 << 30)})
+                    'seed': rnd.randrange(1 << 30),
+                    # every other case draws falsy members (0, 0.0, -0.0, False, '', {}, []) for its
+                    # scalar slots: all of them / each with probability 1/2
+                    'falsy': {1: 'all', 3: 'half'}.get(n % 4)})
     # objects that do not come from the schema enumeration: float-built LSR, unnamed species,
     # the repository's own example objects
     for j, name in enumerate(sorted(lib_c11.EXTRAS)):
@@ -191,7 +194,7 @@ def run(ctx):
     pending = []                 # violations, reported below with one of each kind first
     edges = set()
     timing['execute_s'] = timing['validate_s'] = 0.0
-    n_lines = n_get = n_attr = n_judged = 0
+    n_lines = n_get = n_attr = n_judged = n_falsy = 0
     BATCH = 500                  # bounds the memory held by recorded events
     for b0 in range(0, len(cases), BATCH):
         batch = cases[b0:b0 + BATCH]
@@ -234,8 +237,11 @@ def run(ctx):
         evs_of = dict(traces)
         by_case = {}
         for tid, idx, clause in fails:
-            if clause.startswith('~judged:'):          # vacuity counter of the trace spec, not a verdict
+            if clause.startswith('~judged:'):          # vacuity counters of the trace spec, not verdicts
                 n_judged += int(clause.split(':')[1])
+                continue
+            if clause.startswith('~falsy:'):
+                n_falsy += int(clause.split(':')[1])
                 continue
             ev = evs_of[tid][idx]
             base, tags = _tags_for(ev, clause)
@@ -264,6 +270,9 @@ def run(ctx):
     ctx.coverage['trace_lines'] = n_lines
     ctx.coverage['getter_comparisons'] = n_get
     ctx.coverage['getter_comparisons_judged'] = n_judged       # the rest sat above an already reported loss
+    ctx.coverage['falsy_non_None_attribute_values_compared'] = n_falsy
+    if ctx.replay_case is None and not n_falsy:
+        raise core.MachineryError('no falsy (0, 0.0, False, "", [], {}) attribute value was compared: vacuous')
     if n_get and not n_judged:
         raise core.MachineryError('GettersEqual was never judged (every getter line was masked): vacuous')
     ctx.coverage['attribute_comparisons'] = n_attr
